@@ -175,7 +175,7 @@ pub fn replay(case: &Value) -> Result<Verdict, String> {
     }))
 }
 
-const PREFIXES: [&str; 9] = ["", "-true ", "-name x -o ", "-uid 1 -a ! ", "-true -name 'a b' -uid 1 ", "( -true ) -o ", "-name café ", "-name 日本語 -o -iname 'é😀' ", "-name\t'x\ny'\n"];
+const PREFIXES: [&str; 12] = ["", "-true ", "-name x -o ", "-uid 1 -a ! ", "-true -name 'a b' -uid 1 ", "( -true ) -o ", "-name café ", "-name 日本語 -o -iname 'é😀' ", "-name\t'x\ny'\n", "-name it's ", "-fprint a\"b -o -name 'q' ", "-name a'b\"c "];
 const SUFFIXES: [&str; 10] = ["", " -print", " -o -name y -print", " -a -uid 2", " ", "\n", " \t ", " -name 'a'", " -o -name \"b c\" -print", " -fprint 'it''s'"];
 
 pub fn build(kw: &str, lang: Lang, missing: bool, second: bool, bad: usize, pre: usize, suf: usize, paren: bool) -> Option<Case> {
@@ -196,7 +196,9 @@ pub fn build(kw: &str, lang: Lang, missing: bool, second: bool, bad: usize, pre:
         // the same word written between quotes (the argument word is then the quoted content), for
         // the languages that are not themselves 'word or quoted string'
         match (bad / words.len()) % 3 {
-            1 if lang != Lang::Perm => (format!("{kw}{} '{w} {w}'", if lang == Lang::StrFmt { " out.txt" } else { "" }), format!("{w} {w}"), "invalid"),
+            1 if lang != Lang::Perm && bad % 2 == 0 => (format!("{kw}{} '{w} {w}'", if lang == Lang::StrFmt { " out.txt" } else { "" }), format!("{w} {w}"), "invalid"),
+            // a quoted word with a line end inside (CR LF, LF): quoted exactly as written
+            1 if lang != Lang::Perm => (format!("{kw}{} '{w}\r\n{w}\n'", if lang == Lang::StrFmt { " out.txt" } else { "" }), format!("{w}\r\n{w}\n"), "invalid"),
             2 if lang != Lang::Perm => (format!("{kw}{} \"{w}\"", if lang == Lang::StrFmt { " out.txt" } else { "" }), w.to_string(), "invalid"),
             _ => (format!("{kw}{} {w}", if lang == Lang::StrFmt { " out.txt" } else { "" }), w.to_string(), "invalid"),
         }
@@ -206,7 +208,7 @@ pub fn build(kw: &str, lang: Lang, missing: bool, second: bool, bad: usize, pre:
     let mut input = if paren { format!("{prefix}( {body}{suffix} )") } else { format!("{prefix}{body}{suffix}") };
     let mut first = pre % PREFIXES.len() == 0 && !paren;
     // decoys: the keyword glued to the offending word occurs elsewhere in the input, as a plain string argument
-    if !missing && !word.contains(' ') && !word.contains('\'') {
+    if !missing && !word.contains(char::is_whitespace) && !word.contains('\'') {
         match (bad / 4 + pre + suf) % 5 {
             0 => {
                 input = format!("-name {kw}{word} {input}");
